@@ -26,8 +26,9 @@ def _setup(interp, name, variant):
     o = sp.make(interp, "v", (), assume, variant=variant) if variant is not None else sp.make(interp, "v", (), assume)
     for a in assume:
         ctx.assume(a)
-    if hasattr(o, "runs_assume"):
-        o.runs_assume(ctx)
+    if hasattr(o, "nruns"):
+        from .symlayout import runs_assume
+        runs_assume(ctx, o)
     return sp, o
 
 
@@ -127,6 +128,80 @@ def t_build(name, variant=None):
     return Task(tag, CLASS_OF[name] + "." + attr, ["C01", "C02", "C05", "C06", "C12"], run, kind="B")
 
 
+def _do_write(interp, name, o, tag):
+    f = _fn(interp, name, WRITE_ATTR.get(name, "_write"))
+    if not isinstance(f, FuncModel):
+        raise OutOfReach(f"{name} writer is not a function")
+    file = interp.register(VBytesIO())
+    interp.inline_only.add(f.qualname)
+    try:
+        interp.call(f, [o, file] + _extra_write_args(interp, name, o), {})
+    except PyRaise as pr:
+        interp.ctx.oblige(f"{tag}.write_raises_on_valid_object({pr.exc.cls.name})", False, kind="RT.raise")
+        return None
+    finally:
+        interp.inline_only.discard(f.qualname)
+    return file.atoms
+
+
+def t_roundtrip(name, variant=None):
+    """C01 (layout-free): decoding what the real writer produced yields the original content and consumes all of it"""
+    tag = f"RT.{name}" + (f"[{variant}]" if variant else "")
+
+    def run(interp):
+        ctx = interp.ctx
+        sp, o = _setup(interp, name, variant)
+        atoms = _do_write(interp, name, o, tag)
+        if atoms is None:
+            return
+        f = _fn(interp, name, BUILD_ATTR.get(name, "_build"))
+        interp.inline_only.add(f.qualname)
+        stream = interp.register(VInFile(InStream(list(atoms))))
+        args = []
+        for a in sp.build_args(o):
+            if isinstance(a, str) and a == "FORMAT":
+                mod = interp.loader.import_module(interp, "basictdf.tdfForcePlatformsData")
+                a = mod.ns["ForcePlatformBlockFormat"].members["byTrackISSFormat"]
+            args.append(a)
+        try:
+            r = interp.call(f, [stream] + args, {})
+        except PyRaise as pr:
+            ctx.oblige(f"{tag}.decode_of_own_encoding_raises({pr.exc.cls.name})", False, kind="RT.raise")
+            return
+        stream.leave(interp, 0)
+        for a in stream.s.cur:
+            ctx.oblige(f"{tag}.consumed_all_bytes_written({a!r} left unread)", eq(alen(ctx, a), 0), kind="RT.consumed")
+        exp = decoded(interp, name, o)
+        exp.decoded = False
+        for n, g in expect_eq(interp, r, exp, tag):
+            ctx.oblige(n, g, kind="RT")
+    return Task(tag, CLASS_OF[name] + "._write+_build", ["C01", "C02", "C05"], run, kind="RT")
+
+
+def t_size_vs_written(name, variant=None):
+    """C02 (layout-free): nBytes equals the number of bytes the real writer emits"""
+    tag = f"SW.{name}" + (f"[{variant}]" if variant else "")
+
+    def run(interp):
+        ctx = interp.ctx
+        sp, o = _setup(interp, name, variant)
+        atoms = _do_write(interp, name, o, tag)
+        if atoms is None:
+            return
+        f = _fn(interp, name, "nBytes")
+        if isinstance(f, FuncModel):
+            interp.inline_only.add(f.qualname)
+            try:
+                got = interp.call(f, [o], {})
+            except PyRaise as pr:
+                ctx.oblige(f"{tag}.nBytes_raises({pr.exc.cls.name})", False, kind="SW.raise")
+                return
+        else:
+            got = f if f is not None else o.fields.get("nBytes")
+        ctx.oblige(f"{tag}.nBytes_equals_bytes_written", eq(npmodel.as_int(interp, got), slen(ctx, atoms)), kind="SW")
+    return Task(tag, CLASS_OF[name] + ".nBytes+_write", ["C02"], run, kind="SW")
+
+
 def t_roundtrip_lemma(name, variant=None):
     """R3: the canonical encoding of the decoded value equals the original encoding (enc is a function of abs)"""
     tag = f"R3.{name}" + (f"[{variant}]" if variant else "")
@@ -169,6 +244,31 @@ def segments_task(name):
     return Task(tag, CLASS_OF[name] + "._segments", ["C05"], run, kind="SEG")
 
 
+def canaries():
+    """deliberately false contracts that must be REFUTED on every run (vacuity / soundness guard, DESIGN.md 5.1)"""
+    def c1(interp):
+        ctx = interp.ctx
+        sp, o = _setup(interp, "MarkerTrack", None)
+        f = _fn(interp, "MarkerTrack", "nBytes")
+        interp.inline_only.add(f.qualname)
+        got = interp.call(f, [o], {})
+        ctx.oblige("CANARY.nBytes_equals_layout_length_plus_one", eq(got, slen(ctx, layout_atoms(ctx, "MarkerTrack", sp.view(o))) + 1), kind="canary")
+
+    def c2(interp):
+        ctx = interp.ctx
+        sp, o = _setup(interp, "Event", None)
+        file = interp.register(VBytesIO())
+        f = _fn(interp, "Event", "_write")
+        interp.inline_only.add(f.qualname)
+        interp.call(f, [o, file], {})
+        spec_atoms = layout_atoms(ctx, "Event", sp.view(o))
+        spec_atoms[3], spec_atoms[4] = spec_atoms[4], spec_atoms[3]        # type and item count swapped
+        for n, g in stream_eq_goals(ctx, file.atoms, spec_atoms, "CANARY.W.Event(fields swapped)"):
+            ctx.oblige(n, g, kind="canary")
+    return [Task("CANARY.size_plus_one", "basictdf.tdfData3D.MarkerTrack.nBytes", [], c1, kind="canary"),
+            Task("CANARY.fields_swapped", "basictdf.tdfEvents.Event._write", [], c2, kind="canary")]
+
+
 ITEMS = ["MarkerTrack", "EMGTrack", "ForceTorqueTrack", "PlatformData", "PlatformInfo", "Viewport", "SeelabCamera", "BTSCamera",
          "OpticalChannel", "Event", "Entry"]
 BLOCKS = ["Data3D", "EMG", "ForceTorque3D", "PlatformsData", "PlatformsCalibration", "Calibration", "OpticalSetup", "Events"]
@@ -183,6 +283,9 @@ def all_tasks():
             if not (name == "Data3D" and v == "byTrack-nolinks-attr"):
                 out.append(t_build(name, v))
                 out.append(t_roundtrip_lemma(name, v))
+                out.append(t_roundtrip(name, v))
+            out.append(t_size_vs_written(name, v))
     for name in ("MarkerTrack", "EMGTrack", "ForceTorqueTrack", "PlatformData"):
         out.append(segments_task(name))
+    out += canaries()
     return out
